@@ -357,6 +357,12 @@ def c17_scenarios(rng, n):
                 inbound = [{"g": 1, "after": 0, "q": q, "tag": 101}, {"g": 1, "after": 0, "q": q, "tag": 102}] + [{"g": g, "after": 0, "q": q, "tag": 100 * g + 1} for g in range(2, nre + 2)]
                 out.append(rf.scenario("c17s-%d" % i, [dict(HANDLE(1), swap=2), PUB(1)], [p1, "conn"], faults, inbound=inbound))
                 i += 1
+    # a RetryClient driven by hand (SetClient / Connect without the reconnect loop) that replaces its connection
+    # make-before-break: what still arrives on the previous connection, after SetClient gave the client the next one, is not
+    # dropped "merely because a reconnect replaced the underlying connection object"
+    for var in ("handleFirst", "handleAfter"):
+        for q in (0, 1, 2):
+            out.append({"id": "c17m-%s-q%d" % (var, q), "reqs": [], "plan": {}, "opts": {"manualSwitch": var, "manualQoS": q}})
     for j in range(n // 4):
         nh = rng.randint(1, 3)
         wl, tm = [], []
